@@ -293,7 +293,7 @@ func (s *Storer) NewFromOAuth2(ctx context.Context, provider string, details map
 	if u, ok := s.Users[pid]; ok {
 		return s.wrap(u.clone()).(authboss.OAuth2User), nil
 	}
-	u := &User{PID: pid, Email: details["email"], OAuth2UID: uid, Confirmed: details["confirmed"] != "false"}
+	u := &User{PID: pid, Email: uid + "@oauth.test", OAuth2UID: uid, Confirmed: details["confirmed"] != "false"}
 	return s.wrap(u).(authboss.OAuth2User), nil
 }
 
